@@ -21,7 +21,7 @@ Thetas == IF Tier = "quick" THEN {249, 251, 254, 255} ELSE {249, 250, 251, 252, 
 \* (the exact rational average has denominator n^k after k polls: priors are bounded so that n^k stays below 2^31 for n <= 4)
 Priors == IF Tier = "quick" THEN {Rat(0, 1), Rat(20, 1)} ELSE {Rat(0, 1), Rat(1, 1), Rat(20, 1), Rat(35, 1)}
 
-Cfgs == { [kind |-> k, neverStop |-> TRUE, hasRpm |-> TRUE, hasPwm |-> TRUE, hasMode |-> (k = "hwmon"),
+Cfgs == { [kind |-> k, neverStop |-> TRUE, hasRpm |-> TRUE, hasPwm |-> TRUE, hasMode |-> (k = "hwmon"), modeStuck |-> FALSE,
            gmin |-> IF k = "hwmon" THEN Lim[1] ELSE 0, mx |-> IF k = "hwmon" THEN Lim[2] ELSE P,
            map |-> Identity, keys |-> 0..P, wf |-> Identity, ws |-> [r \in 0..P |-> {r}],
            n |-> n, alg |-> [t |-> "direct"]] : k \in {"hwmon", "file"}, n \in Windows }
